@@ -88,8 +88,14 @@ def confirm(pid, n, h, scratch, tdir, logdir, tag="native"):
     json.dump({
         "property": pid, "harness": n, "harness_file": h.file, "harness_files": files,
         "tests": tests, "cbmc_failed_checks": r.failed_checks, "native_failed": nfail, "native_run": nrun,
+        "expect_panic": h.expect_panic,
         "src_fingerprint": gen.src_fingerprint(), "how": "bin/check %s --replay %s" % (pid, path),
     }, open(path, "w"), indent=1)
+    if h.expect_panic is not None:
+        # the harness demands a panic: the violation reproduces when a playback test runs to completion natively
+        if nrun > 0 and nfail < nrun:
+            return True, path, "%d/%d playback tests return normally natively where the call must panic" % (nrun - nfail, nrun)
+        return False, path, "all %d playback tests panic natively as demanded; tail: %s" % (nrun, tail[-300:])
     if nfail > 0:
         return True, path, "%d/%d playback tests fail natively" % (nfail, nrun)
     return False, path, "0/%d playback tests fail natively; tail: %s" % (nrun, tail[-300:])
@@ -106,6 +112,12 @@ def run_replay(pid, path):
     nfail, nrun, tail = native_run(pid, d["harness_files"], d["harness_file"], d["tests"], tag="replay")
     for t in d["tests"]:
         print("replay %s: %s" % (t["name"], t.get("native", "")))
+    if d.get("expect_panic") is not None:
+        if nrun > 0 and nfail < nrun:
+            print("VIOLATION property=%s replay=%s" % (pid, path))
+            return 1
+        print("replay does not reproduce on the current tree (%d tests run, all panic as demanded)" % nrun)
+        return 0
     if nfail > 0:
         print("VIOLATION property=%s replay=%s" % (pid, path))
         return 1
